@@ -507,7 +507,8 @@ KINDS = {
     "C05": {"edit", "bwd"}, "C06": {"edit", "bwd"}, "C07": {"edit"},
 }
 # direct oracles of each property (combinator properties: everything the program text defines, on their programs)
-PROP_ORACLES = {"C05": ["C05", "edit_ref"], "C06": ["C06"], "C07": ["C07", "edit_ref"],
+PROP_ORACLES = {"C02": ["C02", "edit_ref"],     # "the score of its traces": edited traces are traces too
+                "C05": ["C05", "edit_ref"], "C06": ["C06"], "C07": ["C07", "edit_ref"],
                 "C11": ["all"], "C12": ["all"], "C13": ["all"], "C14": ["all"], "C15": ["all"], "C16": ["all"]}
 # combinator-specific properties look at every step of the programs that contain the combinator
 CONTAINS = {
